@@ -770,6 +770,18 @@ class IntVec(list):
     def __mul__(self, o): return self._el(o, lambda x, y: x * y)
     def __rmul__(self, o): return self._el(o, lambda x, y: y * x)
 
+    def _unsupported(self, o, what):
+        # element-wise arithmetic that leaves the integers (powers, divisions, floats): the values are not tracked
+        raise AnalysisError(f'{what} with an integer index vector has no model in this domain')
+
+    def __pow__(self, o): return self._unsupported(o, 'a power')
+    def __rpow__(self, o): return self._unsupported(o, 'a power')
+    def __truediv__(self, o): return self._unsupported(o, 'a division')
+    def __rtruediv__(self, o): return self._unsupported(o, 'a division')
+    def __floordiv__(self, o): return self._el(o, lambda x, y: x // y)
+    def __mod__(self, o): return self._el(o, lambda x, y: x % y)
+    def __neg__(self): return IntVec(-x for x in self)
+
     def __getitem__(self, i):
         r = list.__getitem__(self, i)
         return IntVec(r) if isinstance(i, slice) else r
